@@ -10,7 +10,7 @@ CHECKS = {
  'C13': {
   'level': 'other',
   'explanation': 'PARTIAL (see DESIGN.md section 4, C13).  (a) round trip: for every description over a pool of 2 states x 2-3 ranked symbols (presence bit per declared symbol, declared state, final state and transition) ParseString(Serialize(d)) returns the same final states and transitions (the declaration lists and the automaton name are not part of the property and are not compared), and LoadFromAutDesc + DumpToAutDesc through the explicit encoding keeps rules and final states under the same names; number<->text conversion (Convert::ToString/FromString = ostringstream/istringstream) is executed through stubs (engine/rt/convert_models.cc), everything else is the real serializer, parser and loader code.  (b) robustness: TimbukParser::ParseString (src/timbuk_parser-nobison.cc: parse_timbuk, trim, split_delim, read_word, contains_whitespace, parse_colonned_token without numbers) executed symbolically on texts consisting of one of three concrete, colon-free heads followed by K symbolic characters drawn from the 8-character alphabet {blank, newline, ( ) , - > q}: for every such text the parser returns or throws (the exception path ends at __cxa_throw), without any memory-safety / UB violation, and every transition of a returned description has a non-empty symbol and a non-empty blank-free right-hand side.  NOT covered: the iostream code behind Convert (stubbed), the loaders of the finite-automaton and BDD classes, names other than those of the pool, arbitrary bytes outside the 8-character alphabet, texts with more than K free characters.',
-  'bounds': {'quick': 'robustness: 8 text frames (the free part sits in the Ops, Automaton, States, Final States line, on a line of its own, at the start of a transition, inside a transition, between a rule symbol and its arrow) x K in {3,5,6,8} free characters from a 16-character alphabet (all six white-space characters, parentheses, comma, minus, greater-than, colon, a digit, two declared names, an undeclared letter): 12, 20, 24 and 32 free bits per query; round trip and load/dump: 2 states x 2 symbols (12 bits)', 'thorough': 'robustness: the 8 frames x K in {3,5,6,8} plus K = 9 for the five frames whose heads keep the diagrams small (up to 36 free bits; K = 9 with the other three frames and K = 10 exhaust 24 GB and are outside the claim); round trip additionally 2 states x 3 symbols incl. a binary one (15 bits)'},
+  'bounds': {'quick': 'robustness: 8 text frames (the free part sits in the Ops, Automaton, States, Final States line, on a line of its own, at the start of a transition, inside a transition, between a rule symbol and its arrow) x K in {3,5,6,8} free characters from a 16-character alphabet (all six white-space characters, parentheses, comma, minus, greater-than, colon, a digit, two declared names, an undeclared letter): 12, 20, 24 and 32 free bits per query; round trip and load/dump: 2 states x 2 symbols (12 bits), once with disjoint name pools and once with states that are called like the nullary and the unary symbol (third red-team round)', 'thorough': 'robustness: the 8 frames x K in {3,5,6,8} plus K = 9 for the five frames whose heads keep the diagrams small (up to 36 free bits; K = 9 with the other three frames and K = 10 exhaust 24 GB and are outside the claim); round trip additionally 2 states x 3 symbols incl. a binary one (15 bits)'},
   'outside': 'see explanation: round trip, serializer, loaders, numbers after a colon, bytes outside the alphabet, longer free parts',
   'harnesses': [
     # "symbolic" load/dump mode of the bottom-up BDD encoding (known finding C13-1)
